@@ -18,6 +18,10 @@ func unwindStack(sp, fp, top uintptr, returnAddresses []uintptr) []uintptr {
 
 // goCallStackView is a function to get a view of the stack before a Go call, which
 // is the view of the stack allocated in CompileGoFunctionTrampoline.
+func unwindStackUpTo(sp, fp, top uintptr, returnAddresses []uintptr, limit int) []uintptr {
+	panic("unsupported architecture")
+}
+
 func goCallStackView(stackPointerBeforeGoCall *uint64) []uint64 {
 	panic("unsupported architecture")
 }
